@@ -4,6 +4,8 @@ instance is one of the schedules of the relation, no result is returned twice.
 -/
 import OpenFGAVerif.Model.ListUsers
 
+set_option linter.unusedSectionVars false
+
 namespace OpenFGAVerif.ListUsers
 
 section
